@@ -66,6 +66,57 @@ func runC11(c *rules.Ctx) {
 	c.CheckedCall(UL, "superfluidkeeper.Keeper.validateLockForSF", []string{"k", "{ULOCK}", "sender"}, "ownership is validated first", "")
 	c.FailsWhen(UL, "not(lockuptypes.SyntheticLock.IsUnlocking(superfluidtypes.LockupKeeper.GetSyntheticLockupByUnderlyingLockId(k.lk,ctx,underlyingLockId)#0))", "a lock whose staking marker is still bonded cannot be force-unlocked", rules.GuardOpt{Before: "superfluidtypes.LockupKeeper.BeginForceUnlock"})
 	c.CallArg(UL, "superfluidtypes.LockupKeeper.BeginForceUnlock", 2, "underlyingLockId", "the lock that starts unlocking is the validated one")
+	// ---- epoch refresh: stake is moved to the expected amount
+	const RF = K + "RefreshIntermediaryDelegationAmounts"
+	c.Let("RCTX", "sdk.UnwrapSDKContext(context)")
+	c.Let("VAL", "sdk.ValAddressFromBech32(elem(accs).ValAddr)#0")
+	c.Let("EXP", "superfluidkeeper.Keeper.GetExpectedDelegationAmount(k,{RCTX},elem(accs))#0")
+	c.Let("CUR", "phi(sdkmath.NewInt(0), sdkmath.LegacyDec.RoundInt(stakingtypes.Validator.TokensFromShares(superfluidtypes.StakingKeeper.GetValidator(k.sk,{RCTX},{VAL})#0, superfluidtypes.StakingKeeper.GetDelegation(k.sk,{RCTX},superfluidtypes.SuperfluidIntermediaryAccount.GetAccAddress(elem(accs)),{VAL})#0.Shares)))")
+	c.CallArg(RF, "superfluidkeeper.Keeper.mintOsmoTokensAndDelegate", 2, "sdkmath.Int.Sub({EXP},{CUR})", "a shortfall is topped up by expected − current stake (current = 0 when the account has no delegation record)")
+	c.CallArg(RF, "superfluidkeeper.Keeper.mintOsmoTokensAndDelegate", 3, "elem(accs)", "…for the account being refreshed")
+	c.OnlyWhen(RF, "superfluidkeeper.Keeper.mintOsmoTokensAndDelegate", "sdkmath.Int.GT({EXP},{CUR})", "minting only when expected > current")
+	c.CallArg(RF, "superfluidkeeper.Keeper.forceUndelegateAndBurnOsmoTokens", 2, "sdkmath.Int.Sub({CUR},{EXP})", "an excess is removed by current − expected stake")
+	c.CallArg(RF, "superfluidkeeper.Keeper.forceUndelegateAndBurnOsmoTokens", 3, "elem(accs)", "…from the account being refreshed")
+	c.OnlyWhen(RF, "superfluidkeeper.Keeper.forceUndelegateAndBurnOsmoTokens", "sdkmath.Int.GT({CUR},{EXP})", "burning only when current > expected")
+	c.HasCall(RF, "superfluidkeeper.Keeper.mintOsmoTokensAndDelegate", nil, false, "the refresh can raise the stake", "exists")
+	c.HasCall(RF, "superfluidkeeper.Keeper.forceUndelegateAndBurnOsmoTokens", nil, false, "the refresh can lower the stake", "exists")
+	const GE = K + "GetExpectedDelegationAmount"
+	c.Returns(GE, 0, "superfluidkeeper.Keeper.GetSuperfluidOSMOTokens(k,ctx,acc.Denom,superfluidkeeper.Keeper.GetTotalSyntheticAssetsLocked(k,ctx,superfluidkeeper.stakingSyntheticDenom(acc.Denom,acc.ValAddr))#0)#0 | zero:Int() | nil", "expected stake = risk-adjusted OSMO value of everything carrying the account's staking marker", "")
+	c.Returns(K+"GetTotalSyntheticAssetsLocked", 0, "superfluidtypes.LockupKeeper.GetPeriodLocksAccumulation(k.lk,ctx,with:Duration(with:Denom(with:LockQueryType(zero:QueryCondition(),0),denom),superfluidtypes.StakingKeeper.UnbondingTime(k.sk,ctx)#0)) | zero:Int()", "the marker total is the by-duration accumulation of the marker denom from the unbonding time up", "")
+	// ---- staking / unstaking markers (synthetic locks)
+	const CW = K + "createSyntheticLockupWithDuration"
+	c.Let("CSL", "superfluidtypes.LockupKeeper.CreateSyntheticLockup")
+	c.OnlyWhen(CW, "{CSL}[3=superfluidkeeper.unstakingSyntheticDenom(intermediateAcc.Denom,intermediateAcc.ValAddr)]", "eq(lockingStat,0)", "the unstaking marker denom is used only for the unlocking status")
+	c.OnlyWhen(CW, "{CSL}[5=true]", "eq(lockingStat,0)", "a marker is created as unlocking (with an end time) only for the unlocking status")
+	c.OnlyWhen(CW, "{CSL}[3=superfluidkeeper.stakingSyntheticDenom(intermediateAcc.Denom,intermediateAcc.ValAddr)]", "ne(lockingStat,0)", "the staking marker denom is used only for the bonded status")
+	c.OnlyWhen(CW, "{CSL}[5=false]", "ne(lockingStat,0)", "a marker without end time is created only for the bonded status")
+	c.CallWhere(CW, "{CSL}", 5, "true", 3, "superfluidkeeper.unstakingSyntheticDenom(intermediateAcc.Denom,intermediateAcc.ValAddr)", "an unlocking marker always carries the unstaking denom", "unst")
+	c.CallWhere(CW, "{CSL}", 5, "false", 3, "superfluidkeeper.stakingSyntheticDenom(intermediateAcc.Denom,intermediateAcc.ValAddr)", "a bonded marker always carries the staking denom", "st")
+	c.CallArg(CW, "superfluidtypes.LockupKeeper.CreateSyntheticLockup", 2, "underlyingLockId", "the marker is attached to the given lock")
+	c.CallArg(CW, "superfluidtypes.LockupKeeper.CreateSyntheticLockup", 4, "unlockingDuration", "the marker lasts the given duration")
+	c.CallArg(K+"createSyntheticLockup", "superfluidkeeper.Keeper.createSyntheticLockupWithDuration", 4, "superfluidtypes.StakingKeeper.GetParams(k.sk,ctx)#0.UnbondingTime", "markers last the staking unbonding period")
+	const LK = "x/lockup/keeper.Keeper."
+	const CS = LK + "CreateSyntheticLockup"
+	c.Let("SLOCK", "lockupkeeper.Keeper.GetLockByID(k,ctx,lockID)#0")
+	c.FailsWhen(CS, "lockupkeeper.Keeper.GetSyntheticLockupByUnderlyingLockId(k,ctx,lockID)#1", "a lock carries at most one marker", rules.GuardOpt{Before: "lockupkeeper.Keeper.setSyntheticLockupObject"})
+	c.FailsWhen(CS, "gt(unlockDuration,{SLOCK}.Duration)", "an unstaking marker cannot outlast the lock's own duration", rules.GuardOpt{Context: []string{"isUnlocking"}, Conditional: true})
+	c.StoreField(CS, "EndTime", "phi(nil, time.Time.Add(sdk.Context.BlockTime(ctx), unlockDuration))", "an unlocking marker ends exactly unlockDuration after the current block time; a bonded one has no end time")
+	c.StoreField(CS, "Duration", "unlockDuration", "the marker records its duration")
+	c.StoreField(CS, "UnderlyingLockId", "lockID", "…and its lock")
+	c.StoreField(CS, "SynthDenom", "synthDenom", "…and its denom")
+	c.CallArg(CS, "sumtree.Tree.Increase", 0, "lockupkeeper.Keeper.accumulationStore(k,ctx,synthDenom)", "the marker's amount is accumulated under the marker denom")
+	c.CallArg(CS, "sumtree.Tree.Increase", 1, "lockupkeeper.accumulationKey(unlockDuration)", "…in the bucket of the marker's duration")
+	c.CallArg(CS, "sumtree.Tree.Increase", 2, "lockuptypes.PeriodLock.SingleCoin({SLOCK})#0.Amount", "…with the lock's amount")
+	const DS = LK + "DeleteSyntheticLockup"
+	c.Let("SYN", "lockupkeeper.Keeper.GetSyntheticLockup(k,ctx,lockID,synthdenom)#0")
+	c.CallArg(DS, "sumtree.Tree.Decrease", 0, "lockupkeeper.Keeper.accumulationStore(k,ctx,{SYN}.SynthDenom)", "deleting a marker removes its amount from the marker denom's accumulation")
+	c.CallArg(DS, "sumtree.Tree.Decrease", 1, "lockupkeeper.accumulationKey({SYN}.Duration)", "…from the bucket of the marker's duration (the one create, add-tokens, slash and genesis use)")
+	c.CallArg(DS, "sumtree.Tree.Decrease", 2, "lockuptypes.PeriodLock.SingleCoin({SLOCK})#0.Amount", "…by the lock's amount")
+	c.HasCall(DS, "lockupkeeper.Keeper.deleteSyntheticLockupObject", []string{"k", "ctx", "lockID", "synthdenom"}, true, "the marker record disappears", "")
+	c.CheckedCall(DS, "lockupkeeper.Keeper.deleteSyntheticLockRefs", []string{"k", "ctx", "{SLOCK}", "{SYN}"}, "the marker's index entries disappear", "")
+	c.HasCall(DS, "sumtree.Tree.Decrease", nil, true, "the accumulation is decreased on success", "exists")
+	c.CallWhere(LK+"AddTokensToLockByID", "sumtree.Tree.Increase", 0, "lockupkeeper.Keeper.accumulationStore(k,ctx,lockupkeeper.Keeper.GetSyntheticLockupByUnderlyingLockId(...)#0.SynthDenom)", 1, "lockupkeeper.accumulationKey(lockupkeeper.Keeper.GetSyntheticLockupByUnderlyingLockId(...)#0.Duration)", "a top-up is accumulated in the marker's duration bucket", "synth-key")
+	c.CallWhere(LK+"removeTokensFromLock", "sumtree.Tree.Decrease", 0, "lockupkeeper.Keeper.accumulationStore(k,ctx,lockupkeeper.Keeper.GetSyntheticLockupByUnderlyingLockId(...)#0.SynthDenom)", 1, "lockupkeeper.accumulationKey(lockupkeeper.Keeper.GetSyntheticLockupByUnderlyingLockId(...)#0.Duration)", "a slash leaves the marker's duration bucket", "synth-key")
 	// lockup side: BeginUnlock refuses locks with synthetic locks (shared with C06)
 	c.FailsWhen("x/lockup/keeper.Keeper.BeginUnlock", "lockupkeeper.Keeper.HasAnySyntheticLockups(k,ctx,lockupkeeper.Keeper.GetLockByID(k,ctx,lockID)#0.ID)", "a lock cannot start unlocking while it has a synthetic (superfluid) lock", rules.GuardOpt{Before: "lockupkeeper.Keeper.beginUnlock"})
 }
